@@ -666,6 +666,29 @@ func (cw *verifC14World) probeAfterFault(round int, plan map[string]any, t strin
 	return out, false
 }
 
+// guardedTerminate runs the end of a session's read loop (cleanUp) on behalf of its reader without ever hanging with it:
+// a cleanUp that does not return is recorded for THIS session (goroutine id, so that the parked goroutine is attributed).
+func (cw *verifC14World) guardedTerminate(c *verifC14Client, cs *verifC14Sess, how, op string, round int,
+	hung *[]map[string]any, parkedAll *[]map[string]any, seen map[int]bool) bool {
+	fin := make(chan struct{})
+	var gid int64
+	go func() {
+		atomic.StoreInt64(&gid, verifC14Goid())
+		cw.terminate(cs, how)
+		close(fin)
+	}()
+	select {
+	case <-fin:
+		return true
+	case <-time.After(1500 * time.Millisecond):
+	}
+	*parkedAll = append(*parkedAll, verifC14Parked(seen)...)
+	cs.vs.dead = true // the World's shutdown must not start a second cleanUp and wait for it
+	*hung = append(*hung, map[string]any{"client": c.idx, "op": op, "sess": cs.name, "round": round,
+		"goid": atomic.LoadInt64(&gid), "clean": atomic.LoadInt32(&cs.clean), "req": "cleanup:"})
+	return false
+}
+
 // whyNotQuiet names what keeps the World from being quiescent (channel lengths and atomics only).
 func (cw *verifC14World) whyNotQuiet() string {
 	w := cw.w
@@ -1198,23 +1221,9 @@ func verifC14Run(t *testing.T, run int, seed int64, rounds, opsPer int, seen map
 		// ---- go
 		// the reader of a session whose write loop is gone runs cleanUp; the harness must not hang with it
 		sweepTerminate := func(c *verifC14Client, cs *verifC14Sess) {
-			fin := make(chan struct{})
-			var gid int64
-			go func() {
-				atomic.StoreInt64(&gid, verifC14Goid())
-				cw.terminate(cs, "writer_exit")
-				close(fin)
-			}()
-			select {
-			case <-fin:
-				return
-			case <-time.After(1500 * time.Millisecond):
+			if !cw.guardedTerminate(c, cs, "writer_exit", "sweep:cleanUp", round, &hungClients, &parkedAll, seen) {
+				hang = true
 			}
-			hang = true
-			parkedAll = append(parkedAll, verifC14Parked(seen)...)
-			cs.vs.dead = true
-			hungClients = append(hungClients, map[string]any{"client": c.idx, "op": "sweep:cleanUp", "sess": cs.name, "round": round,
-				"goid": atomic.LoadInt64(&gid), "clean": atomic.LoadInt32(&cs.clean), "req": "cleanup:"})
 		}
 		var chaos sync.WaitGroup
 		if victim != nil {
@@ -1368,6 +1377,37 @@ func verifC14Run(t *testing.T, run int, seed int64, rounds, opsPer int, seen map
 			}
 		}
 	}
+	// ---- the end: every client that is still connected disconnects (one after the other), inside the recorded history:
+	// a session whose in-flight slot was never released shows up HERE, with its name, not as an anonymous goroutine
+	// left behind by the World's shutdown
+	for _, cs := range cw.sess {
+		if cs.term() == "" {
+			cs.add(verifC14Event{"e": "mark", "round": rounds + 1})
+		}
+	}
+	for _, c := range clients {
+		if c.done == nil {
+			continue
+		}
+		select {
+		case <-c.done:
+		default:
+			continue // its reader is stuck inside the server (already recorded)
+		}
+		if cs := c.cur; cs != nil && cs.term() == "" && !cs.vs.dead {
+			if !cw.guardedTerminate(c, cs, "final_disconnect", "final:cleanUp", rounds+1, &hungClients, &parkedAll, seen) {
+				hang = true
+			}
+		}
+	}
+	syncSess()
+	if qerr := w.quiesce(); qerr == nil {
+		snaps = append(snaps, map[string]any{"round": rounds + 1, "quiesced": true, "plan": map[string]any{"stage": "final_disconnect"}, "final": true, "st": cw.snapshot()})
+	} else if !hang {
+		snaps = append(snaps, map[string]any{"round": rounds + 1, "quiesced": false, "plan": map[string]any{"stage": "final_disconnect"}, "final": true,
+			"st": map[string]any{"sess": map[string]any{}, "topics": map[string]any{}, "rows": map[string]any{}, "registry": []string{}},
+			"qerr": qerr.Error(), "why": cw.whyNotQuiet()})
+	}
 	parked := append(parkedAll, verifC14Parked(seen)...)
 	if parked == nil {
 		parked = []map[string]any{}
@@ -1418,7 +1458,11 @@ func TestVerifC14E2(t *testing.T) {
 	seen := map[int]bool{}
 	start := time.Now()
 	done, setupErrs, hangs := 0, 0, 0
-	for run := 1; run <= runs; run++ {
+	first, _ := strconv.Atoi(os.Getenv("VERIF_C14_FIRST")) // replay a range of Worlds: runs first..runs (world seed = VERIF_SEED*1000003 + run)
+	if first < 1 {
+		first = 1
+	}
+	for run := first; run <= runs; run++ {
 		if budget > 0 && time.Since(start) > time.Duration(budget)*time.Millisecond {
 			break
 		}
